@@ -60,6 +60,26 @@ type Excluded = HashMap<CId, HashSet<CId>>;
 /// - star means "all columns of the table"
 ///
 pub(super) fn translate_wildcards(ctx: &AnchorContext, cols: Vec<CId>) -> (Vec<CId>, Excluded) {
+    // verification hook: inputs of this call (requested columns; for wildcards, the known
+    // columns of their relation instance)
+    #[cfg(prqlc_verif)]
+    let verif_in: Vec<(usize, Option<Vec<usize>>)> = cols
+        .iter()
+        .map(|cid| {
+            let orig = match &ctx.column_decls[cid] {
+                ColumnDecl::RelationColumn(riid, _, RelationColumn::Wildcard) => Some(
+                    ctx.relation_instances[riid]
+                        .original_cids
+                        .iter()
+                        .map(|c| c.get())
+                        .collect(),
+                ),
+                _ => None,
+            };
+            (cid.get(), orig)
+        })
+        .collect();
+
     let mut star = None;
     let mut excluded: Excluded = HashMap::new();
 
@@ -117,6 +137,26 @@ pub(super) fn translate_wildcards(ctx: &AnchorContext, cols: Vec<CId>) -> (Vec<C
     }
 
     exclude(&mut star, &mut excluded);
+
+    // verification hook: outputs of this call
+    #[cfg(prqlc_verif)]
+    {
+        let out: Vec<usize> = output.iter().map(|c| c.get()).collect();
+        let mut exc: Vec<(usize, Vec<usize>)> = excluded
+            .iter()
+            .map(|(k, v)| {
+                let mut v: Vec<usize> = v.iter().map(|c| c.get()).collect();
+                v.sort();
+                (k.get(), v)
+            })
+            .collect();
+        exc.sort();
+        log::debug!(
+            "verif:translate_wildcards {}",
+            serde_json::json!({"cols": verif_in, "output": out, "excluded": exc})
+        );
+    }
+
     (output, excluded)
 }
 
